@@ -2143,8 +2143,11 @@ WITNESSES = [
     ("C11-SIG0-NAN", [float("nan")], [1.0], mk(sig=0), "raises:ValueError"),
     ("C11-NUM-PRECISION", 123456789012345678, Decimal(123456789012345678), mk(numty=True), "nonempty"),
     ("C11-ENUM-NONE", [None], [G.S], mk(enum=True), "empty"),       # fixed by c9e614d: a return of the defect is a break
-    ("C11-TRUNC-DATE", {"a": datetime.date(2020, 1, 1)}, {"a": datetime.date(2020, 1, 1)}, mk(trunc="hour"), "raises:TypeError"),
-    ("C11-TRUNC-DATE", {"a": datetime.timedelta(1)}, {"a": datetime.timedelta(1)}, mk(trunc="hour"), "raises:AttributeError"),
+    # fixed by 1c8f0f8: a return of the defect is a break (see also replay_trunc_date: every unit, ignore_order, keys, set members)
+    ("C11-TRUNC-DATE", {"a": datetime.date(2020, 1, 1)}, {"a": datetime.date(2020, 1, 1)}, mk(trunc="hour"), "empty"),
+    ("C11-TRUNC-DATE", {"a": datetime.timedelta(1)}, {"a": datetime.timedelta(1)}, mk(trunc="hour"), "empty"),
+    ("C11-TRUNC-DATE", [datetime.date(2020, 1, 1), []], [datetime.date(2020, 1, 2), []], mk(trunc="day"), "nonempty"),
+    ("C11-TRUNC-DATE", datetime.timedelta(1), datetime.timedelta(2), mk(trunc="second"), "nonempty"),
     ("C11-SIG-TIMEDELTA-SET", {datetime.timedelta(1)}, {datetime.timedelta(1)}, mk(sig=1), "raises:TypeError"),
     ("C11-DATETIME-KEY", {datetime.date(2020, 1, 1): 1}, {datetime.date(2020, 1, 1): 1}, mk(case=True, sig=1), "raises:TypeError"),
     ("C11-ENUM-KEY", {E.A: 1}, {1: 1}, mk(enum=True), "nonempty"),
@@ -2152,6 +2155,30 @@ WITNESSES = [
     ("C11-NAN-KEY", {float("nan"): 1}, {float("nan"): 1}, mk(nan=True), "nonempty"),
     ("C11-TRUNC-BEFORE-TZ", {"k": _dt(2024, 6, 1, 12, 40, 27, 0, 120)}, {"k": _dt(2024, 6, 1, 16, 25, 27, 0, 345)}, mk(trunc="hour"), "nonempty"),
 ]
+
+
+def replay_trunc_date(ctx):
+    """C11-TRUNC-DATE (fixed by 1c8f0f8): under truncate_datetime dates and timedeltas compare exactly as without the option - as
+    leaves, dict values, dict keys, set members, in both list modes and under ignore_order, for every unit"""
+    from deepdiff import DeepDiff
+    d, td = datetime.date, datetime.timedelta
+    pairs = [(d(2020, 1, 1), d(2020, 1, 1)), (d(2020, 1, 1), d(2020, 1, 2)), (td(1), td(1)), (td(1), td(seconds=86401))]
+    shapes = [lambda x: x, lambda x: {"a": x}, lambda x: [x, []], lambda x: [[x], 1], lambda x: {x}, lambda x: {x: 1}, lambda x: (x, "s")]
+    n = 0
+    for x, y in pairs:
+        for sh in shapes:
+            for extra in ({}, {"ignore_order": True}, {"zip_ordered_iterables": True}):
+                a, b = sh(x), sh(y)
+                plain = run_dd(a, b, **extra)
+                for u in ("second", "minute", "hour", "day"):
+                    r = run_dd(a, b, truncate_datetime=u, **extra)
+                    n += 1
+                    same = r[0] == plain[0] == "ok" and str(r[1]) == str(plain[1])
+                    if not same:
+                        ctx.break_("correspondence", {"name": "fixed_finding_witness", "finding": "C11-TRUNC-DATE", "t1": lit(a), "t2": lit(b),
+                                                      "unit": u, "extra": extra, "plain": str(plain[1:])[:200], "with_option": str(r[1:])[:200],
+                                                      "meaning": "the defect fixed in /repo by 1c8f0f8 is BACK (dates / timedeltas must compare as without the option)"})
+    ctx.note("trunc_date_fixed_witnesses", n)
 
 
 def replay_witnesses(ctx):
@@ -2179,6 +2206,7 @@ def run(ctx):
     rng = ctx.rng
     thorough = ctx.thorough
     replay_witnesses(ctx)
+    replay_trunc_date(ctx)
     atom_level(ctx, 5000 if thorough else 420)
 
     # ---- structural correspondence + oracle on the modelled universe ----
